@@ -161,6 +161,20 @@ pub trait Property: Sync + Send {
     fn extra_coverage(&self, _tier: Tier) -> Value {
         json!({})
     }
+    /// libFuzzer iterations per job of the coverage-guided phase (thorough tier only; 0 = none)
+    fn fuzz_runs(&self, _tier: Tier) -> u64 {
+        0
+    }
+    /// true: the fuzzer's bytes go to `run_raw` instead of being decoded into a choice tape
+    fn fuzz_raw(&self) -> bool {
+        false
+    }
+    fn fuzz_seeds(&self) -> Vec<Vec<u8>> {
+        vec![]
+    }
+    fn run_raw(&self, _data: &[u8], _ctx: &mut CaseCtx) -> Verdict {
+        Verdict::Pass
+    }
 }
 
 // ---------------------------------------------------------------------------------------
@@ -465,12 +479,20 @@ pub fn worker_main(prop: &dyn Property, tier: Tier, seed: u64, w: usize, n: usiz
 // replay (one case, strict)
 
 pub fn run_replay_value(prop: &dyn Property, v: &Value, strict: bool) -> Verdict {
+    run_replay_value_rendered(prop, v, strict).0
+}
+
+pub fn run_replay_value_rendered(prop: &dyn Property, v: &Value, strict: bool) -> (Verdict, Option<Value>) {
     let tier = Tier::parse(v["tier"].as_str().unwrap_or("quick"));
     let known = std::sync::Arc::new(if strict { HashSet::new() } else { known_set(prop.id()) });
     let mut ctx = CaseCtx::new(tier, strict, known);
     ctx.want_render = true;
-    match v["kind"].as_str() {
+    let verdict = match v["kind"].as_str() {
         Some("enum") => prop.run_enumerated(v["index"].as_u64().unwrap_or(0), &mut ctx),
+        Some("raw") => {
+            let data: Vec<u8> = v["bytes"].as_array().map(|a| a.iter().map(|x| x.as_u64().unwrap_or(0) as u8).collect()).unwrap_or_default();
+            prop.run_raw(&data, &mut ctx)
+        }
         _ => {
             let words: Vec<u32> = v["tape"]
                 .as_array()
@@ -479,7 +501,8 @@ pub fn run_replay_value(prop: &dyn Property, v: &Value, strict: bool) -> Verdict
             let mut t = Tape::new(&words);
             prop.run(&mut t, &mut ctx)
         }
-    }
+    };
+    (verdict, ctx.rendered)
 }
 
 /// `casverif replay-raw <file>`: prints one JSON line {"verdict":"pass"|"fail","clause":..,"detail":..}
@@ -514,7 +537,52 @@ struct ProbeResult {
 
 fn run_probe(id: &str, file: &Path) -> ProbeResult {
     let exe = std::env::current_exe().unwrap();
-    let out = std::process::Command::new(exe).arg("replay-raw").arg(id).arg(file).output();
+    // a probe that does not end is inconclusive (verdict "timeout" => exit 2), never a violation
+    let limit = std::time::Duration::from_secs(
+        std::env::var("VERIF_PROBE_TIMEOUT").ok().and_then(|s| s.parse().ok()).unwrap_or(900),
+    );
+    let out = (|| -> std::io::Result<Option<std::process::Output>> {
+        // stdout/stderr go to files so that a talkative case cannot block on a full pipe
+        static N: std::sync::atomic::AtomicU64 = std::sync::atomic::AtomicU64::new(0);
+        let k = N.fetch_add(1, std::sync::atomic::Ordering::SeqCst);
+        let base = std::env::temp_dir().join(format!("casverif-probe.{}.{}", std::process::id(), k));
+        let (po, pe) = (base.with_extension("out"), base.with_extension("err"));
+        let mut child = std::process::Command::new(exe)
+            .arg("replay-raw")
+            .arg(id)
+            .arg(file)
+            .stdout(std::fs::File::create(&po)?)
+            .stderr(std::fs::File::create(&pe)?)
+            .spawn()?;
+        let t0 = std::time::Instant::now();
+        let status = loop {
+            if let Some(st) = child.try_wait()? {
+                break Some(st);
+            }
+            if t0.elapsed() > limit {
+                let _ = child.kill();
+                let _ = child.wait();
+                break None;
+            }
+            std::thread::sleep(std::time::Duration::from_millis(5));
+        };
+        let stdout = std::fs::read(&po).unwrap_or_default();
+        let stderr = std::fs::read(&pe).unwrap_or_default();
+        let _ = std::fs::remove_file(&po);
+        let _ = std::fs::remove_file(&pe);
+        Ok(status.map(|status| std::process::Output { status, stdout, stderr }))
+    })();
+    let out = match out {
+        Ok(Some(o)) => Ok(o),
+        Ok(None) => {
+            return ProbeResult {
+                verdict: "timeout".into(),
+                clause: String::new(),
+                detail: format!("the case did not finish within {} s in a fresh process (inconclusive)", limit.as_secs()),
+            }
+        }
+        Err(e) => Err(e),
+    };
     match out {
         Err(e) => ProbeResult { verdict: "error".into(), clause: String::new(), detail: format!("spawn: {}", e) },
         Ok(o) => {
@@ -538,6 +606,74 @@ fn run_probe(id: &str, file: &Path) -> ProbeResult {
                 detail: v["detail"].as_str().unwrap_or("").to_string(),
             }
         }
+    }
+}
+
+/// Greedy tape minimisation for failures found outside proptest (libFuzzer phase): every candidate is
+/// judged in a fresh process, the failing clause must stay the same. Bounded by 160 probes.
+fn shrink_found_tape(id: &str, f: &Value, scratch: &Path) -> Option<Vec<u32>> {
+    let clause = f["clause"].as_str()?.to_string();
+    let mut words: Vec<u32> = f["tape"].as_array()?.iter().map(|x| x.as_u64().unwrap_or(0) as u32).collect();
+    let tmp = scratch.join("shrink.json");
+    let mut budget = 160;
+    let mut still_fails = |w: &[u32], budget: &mut i32| -> bool {
+        if *budget <= 0 {
+            return false;
+        }
+        *budget -= 1;
+        let mut v = f.clone();
+        v["tape"] = json!(w);
+        if std::fs::write(&tmp, serde_json::to_vec(&v).unwrap()).is_err() {
+            return false;
+        }
+        let r = run_probe(id, &tmp);
+        r.verdict == "fail" && r.clause == clause
+    };
+    let mut improved = false;
+    // truncate
+    let mut keep = words.len();
+    while keep > 0 {
+        let half = keep / 2;
+        if still_fails(&words[..half], &mut budget) {
+            keep = half;
+            improved = true;
+        } else {
+            break;
+        }
+    }
+    words.truncate(keep);
+    // delete chunks, then zero chunks
+    for chunk in [32usize, 8, 2] {
+        let mut i = 0;
+        while i < words.len() && budget > 0 {
+            let end = (i + chunk).min(words.len());
+            let mut cand = words.clone();
+            cand.drain(i..end);
+            if still_fails(&cand, &mut budget) {
+                words = cand;
+                improved = true;
+            } else {
+                let mut cand = words.clone();
+                let mut changed = false;
+                for x in &mut cand[i..end] {
+                    if *x != 0 {
+                        *x = 0;
+                        changed = true;
+                    }
+                }
+                if changed && still_fails(&cand, &mut budget) {
+                    words = cand;
+                    improved = true;
+                }
+                i = end;
+            }
+        }
+    }
+    let _ = std::fs::remove_file(&tmp);
+    if improved {
+        Some(words)
+    } else {
+        None
     }
 }
 
@@ -629,7 +765,9 @@ pub fn check_main(prop: &dyn Property, tier: Tier, seed: u64) -> i32 {
     }
 
     // 2. the search, in worker processes
-    let n = prop.workers(tier).max(1);
+    // development aid: VERIF_FUZZ_ONLY=1 skips the seeded search (never used by registered commands)
+    let fuzz_only = std::env::var("VERIF_FUZZ_ONLY").is_ok();
+    let n = if fuzz_only { 0 } else { prop.workers(tier).max(1) };
     let dir = scratch_dir();
     let exe = std::env::current_exe().unwrap();
     let mut children = Vec::new();
@@ -756,6 +894,40 @@ pub fn check_main(prop: &dyn Property, tier: Tier, seed: u64) -> i32 {
             }
         }
     }
+    // 2b. coverage-guided phase (thorough tier): libFuzzer drives the same property code
+    let mut fuzz_cov: Option<Value> = None;
+    if tier == Tier::Thorough
+        && prop.fuzz_runs(tier) > 0
+        && violations.is_empty()
+        && std::env::var("VERIF_FUZZ").map(|v| v != "0").unwrap_or(true)
+    {
+        let probe = |f: &Path| {
+            let r = run_probe(id, f);
+            (r.verdict, r.clause, r.detail)
+        };
+        let r = super::fuzz::phase(prop, seed, &dir, &probe);
+        let known = known_set(id);
+        for mut f in r.failures {
+            let clause = f["clause"].as_str().unwrap_or("").to_string();
+            if known.contains(&clause) {
+                *known_hits.entry(clause).or_insert(0) += 1;
+                continue;
+            }
+            if f["kind"] == "tape" {
+                if let Some(words) = shrink_found_tape(id, &f, &dir) {
+                    f["tape"] = json!(words);
+                    f["shrunk"] = json!(true);
+                    f["rendered"] = Value::Null;
+                }
+            }
+            let p = save_found(id, seed, &f);
+            violations.push(format!("VIOLATION property={} replay={}", id, p.display()));
+            notes.push(format!("(libFuzzer phase) clause: {} -- {}", clause, f["detail"].as_str().unwrap_or("")));
+        }
+        notes.extend(r.notes);
+        broken.extend(r.broken);
+        fuzz_cov = Some(r.coverage);
+    }
     let _ = std::fs::remove_dir_all(&dir);
     // scratch directories of workers that died before cleaning up
     if let Ok(rd) = std::fs::read_dir(dir.parent().unwrap_or(Path::new("/tmp"))) {
@@ -781,6 +953,9 @@ pub fn check_main(prop: &dyn Property, tier: Tier, seed: u64) -> i32 {
         "exhaustive": prop.exhaustive(tier),
         "workers": n,
     });
+    if let Some(f) = fuzz_cov {
+        coverage["coverage_guided_phase"] = f;
+    }
     if let Some(o) = prop.extra_coverage(tier).as_object() {
         for (k, v) in o {
             coverage[k] = v.clone();
